@@ -7,7 +7,7 @@ EXTENDS LiquidFiltersStr, Json
 
 CONSTANTS MaxLen, MaxArg, ChainLen, ChainInLen, EmitAll
 
-Alphabet == {97, 66, SP, LF, TAB, 44, 60, EACUTE, COMBINING, EMOJI}
+Alphabet == {97, 66, SP, LF, TAB, 44, 60, EACUTE, COMBINING, EMOJI, 223, 305}     \* sharp s and dotless i: upper-casing changes length and width
 RECURSIVE Strings(_)
 Strings(n) == IF n = 0 THEN {<<>>} ELSE Strings(n - 1) \cup {Append(s, c) : s \in {q \in Strings(n - 1) : Len(q) = n - 1}, c \in Alphabet}
 Inputs == Strings(MaxLen)
